@@ -306,6 +306,8 @@ func emptyEdges(fn *ssa.Function, p ssa.Value) []edge {
 
 func runC08(c *Ctx) {
 	R := c.R
+	defer c.include("C08.S2", "C07", []string{"C07.R2"}, "Execute and Describe use that Bind's parameters and result formats: a published portal / statement is never modified", 4)
+	defer c.include("C08.S1", "C18", []string{"C18.R1", "C18.R2"}, "parameter values stay byte-identical until the handler reads them: the message window discipline", 6)
 	R.Technique = "operand provenance and guard-dominance rules on Bind decoding; sibling agreement (decision-table extraction) between RowDescription and DataRow format selection"
 	R.Explanation = "Decides the structural part of 'Bind parameters and format codes reach the handler exactly': (R1) each parameter is built from the very byte slice GetBytes returned for it (no copy, no transformation), stored at the loop's index into a slice allocated for this Bind with the declared count, and NewParameter / the accessors pass their fields through unchanged; " +
 		"(R2) the length -1 sentinel is tested by equality before the value is sliced, the NULL edge yields a nil value (distinct from the empty value) and skips GetBytes - in Bind and in the binary COPY reader alike; (R3) the format of parameter i has exactly the three protocol sources: text when no codes were sent, the single code when exactly one was sent, codes[i] under i < len(codes); " +
@@ -375,6 +377,30 @@ func runC08(c *Ctx) {
 			R.Check(p0 == ".types" && p2 == ".format" && p3 == ".value" && okOid, "C08.R5", "Parameter.Scan:own-fields", c.at(ci), "Scan decodes the parameter's own bytes with its own format, its own type map and the requested type", "DecodeValue(p.types, oid, p.format, p.value)", sprintf("DecodeValue arguments are (%s, oid=%v, %s, %s)", p0, okOid, p2, p3))
 		}
 		R.Floor("C08.R5", "DecodeValue calls in Parameter.Scan", n, 1)
+		// what Scan hands back on success is the codec's result, nothing else (a shortcut that builds the value itself
+		// loses NULL: string(nil) is "", not nil)
+		for _, r := range returns(scan) {
+			if r.Block() == scan.Recover || len(r.Results) != 2 {
+				continue
+			}
+			if cls := c.Err().Classify(errOperand(r), r.Block()); !cls.MayBeNil() {
+				continue
+			}
+			var srcs []ssa.Value
+			leaves(forwardLoad(r.Results[0]), map[ssa.Value]bool{}, &srcs)
+			okAll := len(srcs) > 0
+			for _, v := range srcs {
+				ex, isEx := core.Strip(v).(*ssa.Extract)
+				call, isCall := (*ssa.Call)(nil), false
+				if isEx {
+					call, isCall = ex.Tuple.(*ssa.Call)
+				}
+				if !isEx || !isCall || ex.Index != 0 || !call.Call.IsInvoke() || call.Call.Method.Name() != "DecodeValue" {
+					okAll = false
+				}
+			}
+			R.Check(okAll, "C08.R5", "Parameter.Scan:result-is-codec-result", c.at(r), "every successful Scan returns what the codec decoded from the parameter (NULL stays nil, empty stays empty)", "the value returned with a nil-able error is DecodeValue's first result", "a return that may be successful hands back a value that is not the codec's result (e.g. string(p.value) for text types: a NULL parameter becomes \"\" and is no longer distinguished from an empty value)")
+		}
 	}
 	{
 		sites := c.paramDescriptionSites()
